@@ -364,7 +364,17 @@ def run(pid, tier, seed, res, only=None):
                 if o["status"] == "raise":
                     res.hit("C18", "monitor", "restart from the cache file raised %s" % o["error"], dict(base, kind="monitor", op_index=oi))
                 elif same_sel and op["cache_deps_of"] is None and o["value"] != o.get("cache_src_value"):
-                    res.hit("C18", "monitor", "restart from the cache file returned %r, the caching run returned %r" % (o["value"], o.get("cache_src_value")), dict(base, kind="monitor", op_index=oi))
+                    # position i of the returned tuple is node n_i.  A setup node that was outside the caching
+                    # run's selection (None there) and has been set up on the instance since is legitimately
+                    # returned with its real value ("already-computed nodes", C12/C15): not a difference.
+                    a_, b_ = o["value"], o.get("cache_src_value")
+                    bad_ = not (isinstance(a_, tuple) and isinstance(b_, tuple) and len(a_) == len(b_))
+                    if not bad_:
+                        for i_, (x_, y_) in enumerate(zip(a_, b_)):
+                            if x_ != y_ and not (y_ is None and "n%d" % i_ in o["done_before"]):
+                                bad_ = True
+                    if bad_:
+                        res.hit("C18", "monitor", "restart from the cache file returned %r, the caching run returned %r" % (o["value"], o.get("cache_src_value")), dict(base, kind="monitor", op_index=oi))
             if o["status"] == "ok" and op["cache_in"] and op["cache_deps_of"] is not None:
                 depn = names(op["cache_deps_of"])
                 keys = o.get("cache_keys_written", [])
